@@ -79,6 +79,18 @@ def r2_flatten(rule, root=None):
                     flat = (f, A.struct_pat_bindings(arm["pat"]), str(A.ftxt(init["e"])), st)
                 elif arm["pat"].get("k") == "PWild":
                     wrap = (f, st)
+    # the flattening applies to *every* already-affine tree: a guard on the arm (or a condition around the literal)
+    # leaves directly nested RemapAffine nodes behind, which the importer composes in the other order
+    if flat is not None:
+        st_ = flat[3]
+        guards = []
+        for m_ in A.find(fn["body"], "Match"):
+            for arm_ in m_["arms"]:
+                if arm_.get("guard") is not None and any(n_ is st_ for n_ in A.walk(arm_["body"])):
+                    guards.append(str(A.ftxt(arm_["guard"])))
+        guards += [c_ for c_ in (A.enclosing_conds(fn["body"], st_) or []) if not c_.replace(" ", "").startswith(("match", "(let", "let"))]
+        if guards:
+            rule.bad("flatten|conditional", "remap_affine flattens an already-affine tree only under `%s`; consecutive affine remaps must always collapse into one (`existing * new` on the inner target) - a stacked RemapAffine pair is composed by the importer in the opposite order" % guards[0][:70], A.where(fn, st_))
     if flat is None:
         rule.bad("flatten|shape", "remap_affine no longer has a flattening arm for an already-affine tree", A.where(fn))
     else:
